@@ -692,6 +692,29 @@ def bounded(rep, tier):
                             continue
                         if first in dbs and first != str(st_.integration).lower():
                             fails.setdefault(f'C10.bounded.foreign-table.{qname.split(":")[0]}', (sql, f'[{cname}] the query sent to {st_.integration!r} mentions {t.to_string()!r}: `{str(st_.query)[:140]}`'))
+            # (a'') every model application names the model the query names: namespace it resolves to + name + version, for every kind of apply step
+            def all_applies(steps):
+                for s_ in steps:
+                    if type(s_).__name__.startswith('Apply') and hasattr(s_, 'predictor'):
+                        yield s_
+                    sub = getattr(s_, 'steps', None) if type(s_).__name__ == 'MultipleSteps' else (getattr(s_, 'step', None) if type(s_).__name__ == 'MapReduceStep' else None)
+                    if sub is not None:
+                        yield from all_applies(sub if isinstance(sub, list) else [sub])
+            want_models = set()
+            for t in tables_of(orig):
+                try:
+                    info = pl.get_predictor(t)
+                except Exception:
+                    info = None
+                if info is None or (len(t.parts) == 1 and t.parts[0] in visible.get(id(t), ctes)):
+                    continue
+                parts_l = [str(p_).lower() for p_ in t.parts]
+                ns = str(info.get('integration_name') or '').lower()
+                tail = parts_l[1:] if len(parts_l) > 1 and parts_l[0] == ns else parts_l
+                want_models.add((ns, tuple(tail)))
+            got_models = {(str(a_.namespace).lower(), tuple(str(p_).lower() for p_ in a_.predictor.parts)) for a_ in all_applies(plan.steps)}
+            if want_models and got_models and got_models != want_models:
+                fails.setdefault(f'C10.bounded.model-identity.{qname.split(":")[0]}', (sql, f'[{cname}] models applied: {sorted(got_models)}, models named by the query: {sorted(want_models)}'))
             # (b) letter case of qualifiers does not matter
             sql_up = re.sub(r'\b(int1|int2|api1|proj|mindsdb)\.', lambda m: m.group(1).upper() + '.', sql)
             if sql_up != sql:
